@@ -782,7 +782,33 @@ pub fn download_strategy() -> BoxedStrategy<E2eCase> {
         .boxed()
 }
 
+/// Real-process runs depend on the machine's scheduling and on wall-clock deadlines. A failure counts only if the same
+/// case fails again (twice in at most three runs); one that does not come back is counted as excluded
+/// (`e2e-failure-not-reproduced`), never reported. Seeded defects fail every time; what this gives up is sensitivity
+/// to races that show less often than every other run.
+fn confirmed(c: &E2eCase, once: fn(&E2eCase) -> Outcome) -> Outcome {
+    let first = once(c);
+    if first.ok() {
+        return first;
+    }
+    let second = once(c);
+    if !second.ok() {
+        return first;
+    }
+    let third = once(c);
+    if !third.ok() {
+        return first;
+    }
+    let mut o = second;
+    o.exclude("e2e-failure-not-reproduced");
+    o
+}
+
 pub fn check_download(c: &E2eCase) -> Outcome {
+    confirmed(c, check_download_once)
+}
+
+fn check_download_once(c: &E2eCase) -> Outcome {
     let mut o = Outcome::new();
     o.class_if(c.peers.len() >= 2, ">=2-peers");
     o.class_if(c.peers.iter().any(|p| !p.essential && p.reset_after_blocks.is_some()), "non-essential-peer-resets");
@@ -857,6 +883,10 @@ pub fn fault_strategy(tier: Tier) -> BoxedStrategy<E2eCase> {
 }
 
 pub fn check_faults(c: &E2eCase) -> Outcome {
+    confirmed(c, check_faults_once)
+}
+
+fn check_faults_once(c: &E2eCase) -> Outcome {
     let mut o = Outcome::new();
     let kinds: std::collections::BTreeSet<String> = c.tracker.iter().map(|t| format!("{:?}", t)).collect();
     o.nontrivial = kinds.len() >= 2 || c.tracker_start_delay_ms > 0;
@@ -953,6 +983,10 @@ fn listen_strategy() -> BoxedStrategy<E2eCase> {
 /// already listening on it: whatever port the announce names must be one on which the client answers a handshake
 /// with its own peer id. A client that refuses to start (or never announces) in the second situation claims nothing.
 pub fn check_listen(c: &E2eCase) -> Outcome {
+    confirmed(c, check_listen_once)
+}
+
+fn check_listen_once(c: &E2eCase) -> Outcome {
     let mut o = Outcome::new();
     o.nontrivial = true;
     let r = match run_child(c, Duration::from_secs(40)) {
